@@ -243,7 +243,7 @@ Section Decisions.
 
   (* ultimates: a request is queued exactly when the unit is a character whose energy is full,
      and queuing consumes the energy *)
-  Theorem ult_request_spec s r rest s' :
+  Definition ult_request_statement : Prop := forall s r rest s',
     ult_reqs s (r :: rest) = Ok s' ->
     exists u, get_unit (units s) (ur_target r) = Some u /\ uchar u = true /\
       let full := PrimFloat.eqb (PrimFloat.div (uen u) (umaxen u)) 1 in
@@ -252,10 +252,32 @@ Section Decisions.
         (full = true ->
            s1 = set_energy (enqueue s PRIO_CHAR_ACTION (ur_target r) [FLAG_STAT_CTRL; FLAG_DISABLE_ACTION] (KUlt r))
                            (ur_target r) 0).
+
+  Theorem ult_request_spec : ult_request_statement.
   Proof.
-    cbn [ult_reqs]. destruct (get_unit (units s) (ur_target r)) as [u|]; [|discriminate].
+    intros s r rest s'. cbn [ult_reqs]. destruct (get_unit (units s) (ur_target r)) as [u|]; [|discriminate].
     destruct (uchar u) eqn:EC; cbn [negb]; [|discriminate].
     intros H. exists u. rewrite EC. split; [reflexivity|]. split; [reflexivity|]. cbn zeta.
     destruct (PrimFloat.eqb _ 1); eexists; (split; [exact H|]); split; congruence.
   Qed.
 End Decisions.
+
+(* non-vacuity witness: skills decided twice (the second falls back: no skill points left after
+   a credit-less skill), an ult request honoured once *)
+Definition demo_cfg2 : config :=
+  mkCfg
+    [mkUD 3 true 100 1000 100 100 3 0 TEnemies TEnemies TEnemies [0%nat; 0%nat; 0%nat];
+     mkUD 400 false 80 320 0 0 0 0 TEnemies TEnemies TEnemies [1%nat]]
+    [[SAttack 3 [TPrimary] true 30];
+     [SAttack 4 [TId 1] true 10]]
+    [(1, [mkDec 1 101; mkDec 1 102; mkDec 0 100])] [[mkUR 1 3 100]] [] [] [] [] 3 4.
+
+Example demo_cfg2_runs :
+  match start demo_cfg2 300 with
+  | Stop s => decision_ok demo_cfg2 (trace s) && protocol_ok (trace s) &&
+              existsb (fun e => match e with VActionStart 1 2 false => true | _ => false end) (trace s) &&
+              existsb (fun e => match e with VDefaultAction 1 => true | _ => false end) (trace s) &&
+              existsb (fun e => match e with VActionStart 1 3 true => true | _ => false end) (trace s)
+  | _ => false
+  end = true.
+Proof. vm_compute. reflexivity. Qed.
